@@ -362,7 +362,7 @@ fn replay(case: &Value, flavours: &[String], out: &mut Out, step_timeout: Durati
 }
 
 /// Let the real pool run on its own with perturbed timing, log what the hooks see.
-fn free_run(n: usize, kinds: &[String], flavours: &[String], seed: u64, out: &mut Out, quiesce_timeout: Duration) -> bool {
+fn free_run(n: usize, kinds: &[String], flavours: &[String], seed: u64, out: &mut Out, quiesce_timeout: Duration, idle: (usize, u64)) -> bool {
     out.emit(&json!({"ev":"Reset","mode":"free","n":n,"kind":kinds,"seed":seed}));
     let ctl = Ctl::new(n, false, seed | 1);
     install(&ctl);
@@ -370,6 +370,15 @@ fn free_run(n: usize, kinds: &[String], flavours: &[String], seed: u64, out: &mu
     let pool = ThreadPool::new(n);
     let total = kinds.len();
     for t in 1..=total {
+        if idle.1 > 0 && t == idle.0 + 1 {
+            // idle time as a dimension: wait until what was submitted so far has finished, leave the pool alone for a while,
+            // then go on submitting (a worker that retires or a queue that closes after an idle period shows up as lost capacity)
+            let deadline = Instant::now() + quiesce_timeout;
+            while ctl.nfin.load(Ordering::SeqCst) < idle.0 && Instant::now() < deadline {
+                std::thread::sleep(Duration::from_millis(1));
+            }
+            std::thread::sleep(Duration::from_millis(idle.1));
+        }
         {
             // Submit is logged before send (BeforeSend): the job is not yet visible to any worker
             let mut st = ctl.st.lock().unwrap();
@@ -480,7 +489,8 @@ pub fn run(o: &Opts) -> i32 {
     let free = o.num("free", 0);
     let seed = o.num("seed", 1);
     for i in 0..free {
-        let done = free_run(n, &kinds, &flavours, seed.wrapping_mul(1000003).wrapping_add(i), &mut out, Duration::from_millis(o.num("quiesce-timeout-ms", 4000)));
+        let idle = (o.num("idle-after", 0) as usize, o.num("idle-ms", 0));
+        let done = free_run(n, &kinds, &flavours, seed.wrapping_mul(1000003).wrapping_add(i), &mut out, Duration::from_millis(o.num("quiesce-timeout-ms", 4000)), idle);
         if !done {
             break; // stuck threads of this pool would report into later runs
         }
